@@ -234,6 +234,25 @@ def drive_unbiased(strategy, check, *, n, seed, col):
     drive(strategy, chk, n=n + 1, seed=seed, col=col, shrink=False, max_failures=1)
 
 
+NSHARDS = {"quick": 8, "thorough": 16}   # import + numba JIT cost ~15 s per worker: few, fatter shards
+
+
+def deal(slots, tier, seed):
+    """round-robin the case slots (JSON-able dicts) over the tier's shards"""
+    n = NSHARDS[tier]
+    return [{"k": k, "seed": seed, "slots": [dict(s, i=i) for i, s in enumerate(slots) if i % n == k]} for k in range(n)]
+
+
+def run_slots(shard, col, prop, make_strategy, check):
+    """one Hypothesis-drawn case per slot; stop the shard at its first failure"""
+    from vf.core import hash32
+
+    for slot in shard["slots"]:
+        if col.failures or col.over_budget():
+            break
+        drive_unbiased(make_strategy(slot), check, n=1, seed=hash32(shard["seed"], prop, slot["i"]), col=col)
+
+
 def shape_labels(desc):
     return [f"shape:{desc.get('shape', '?')}", f"einsums:{len(desc['einsums'])}",
             f"levels:{sum(1 for n in desc['nodes'] if n['type'] == 'Memory')}",
